@@ -64,8 +64,16 @@ def controlled_run(offsets, fails, threads, choose, max_steps=2000):
     old_hook = threading.excepthook
     threading.excepthook = lambda args: None if issubclass(args.exc_type, SC.Abort) else old_hook(args)
     try:
-        lc.Queue = lambda *a, **k: SC.SQueue(S)
-        lc.SimpleQueue = lambda *a, **k: SC.SSimpleQueue(S)
+        queues = []
+
+        def mkq(cls):
+            def make(*a, **k):
+                qobj = cls(S)
+                queues.append(qobj)
+                return qobj
+            return make
+        lc.Queue = mkq(SC.SQueue)
+        lc.SimpleQueue = mkq(SC.SSimpleQueue)
         lc.requests_retry_session = lambda *a, **k: Sess(bytes(data), fails, S, fail_kind=lambda off: "protocol" if (off // 50) % 2 else "http")
         lc.HttpFetcherThread.start, lc.HttpFetcherThread.run, lc.HttpFetcherThread.join = start, run, join
         source = lc.HttpRangeStream("http://verif.invalid/file.copc.laz")
@@ -86,7 +94,7 @@ def controlled_run(offsets, fails, threads, choose, max_steps=2000):
         S.announce(0)
         th = threading.Thread(target=main_actor)
         th.start()
-        states, schedule, stuck, leak = [], [], None, None
+        states, schedule, stuck, leak, keys = [], [], None, None, []
         for step in range(max_steps):
             if not S.wait_quiescent():
                 stuck = "a thread neither parked nor finished within 10 s"
@@ -106,6 +114,7 @@ def controlled_run(offsets, fails, threads, choose, max_steps=2000):
             en = S.enabled()
             wt = sorted(t for t in S.actors if t != 0)
             states.append(f"{show(0)}|{','.join(show(t) for t in wt)}|{','.join(str(t) for t in en)}")
+            keys.append(states[-1] + "|" + "/".join(f"{len(qo.items)}:{getattr(qo, 'unfinished', '-')}" for qo in queues))
             if S.actors[0].state == "finished" and leak is None:
                 alive = [t for t in wt if S.actors[t].state != "finished"]
                 if alive:
@@ -124,7 +133,7 @@ def controlled_run(offsets, fails, threads, choose, max_steps=2000):
         th.join(5)
         for w in workers:
             saved[5](w, 5)
-        return {"states": states, "schedule": schedule, "outcome": result.get("out"), "stuck": stuck, "leak": leak}
+        return {"states": states, "schedule": schedule, "outcome": result.get("out"), "stuck": stuck, "leak": leak, "keys": keys}
     finally:
         lc.Queue, lc.SimpleQueue, lc.requests_retry_session = saved[0], saved[1], saved[2]
         lc.HttpFetcherThread.start, lc.HttpFetcherThread.run, lc.HttpFetcherThread.join = saved[3], saved[4], saved[5]
@@ -155,6 +164,40 @@ def policy(rng, kind, fixed=None):
         state["rr"] += 1
         return en[state["rr"] % len(en)]
     return choose
+
+
+def explore_all(ck, offsets, fails, threads, lines, meta, limit):
+    """every enabled choice from every distinct state the real threads can reach (under the doubles), by re-running the
+    implementation along each schedule prefix: exhaustive for the configuration, used to validate the model against the
+    code (the statement for all configurations and schedules is the theorem)"""
+    seen, frontier, runs, want = set(), [[]], 0, ("raised" if fails else "data:" + ",".join(map(str, offsets)))
+    while frontier and runs < limit:
+        prefix = frontier.pop()
+        r = controlled_run(offsets, fails, threads, policy(None, "fixed", fixed=prefix))
+        runs += 1
+        inp = {"kind": "schedule", "ranges": offsets, "workers": threads, "fails": fails, "policy": "exhaustive", "schedule": r["schedule"]}
+        ck.case(("c16x", tuple(offsets), threads, tuple(fails), tuple(r["schedule"])), nontrivial=True)
+        if r["stuck"]:
+            ck.fail(f"{r['stuck']} (ranges {offsets}, {threads} workers)", inp)
+        if r["leak"]:
+            ck.fail(r["leak"], inp)
+        if r["outcome"] != want and not r["stuck"]:
+            ck.fail(f"outcome {r['outcome']}, expected {want}", inp)
+        lines.append(f"ht run 1 1 {','.join(map(str, offsets))} {','.join(map(str, fails)) or '-'} {threads} {','.join(map(str, r['schedule'])) or '-'}")
+        meta.append((inp, " ".join(r["states"])))
+        # expand: from every state along this run, every enabled choice not yet taken from that state
+        for i, key in enumerate(r["keys"]):
+            en = [int(t) for t in key.split("|")[2].split(",") if t]
+            for t in en:
+                if (key, t) not in seen:
+                    seen.add((key, t))
+                    if i < len(r["schedule"]) and r["schedule"][i] == t:
+                        continue            # this run took that choice here
+                    frontier.append(r["schedule"][:i] + [t])
+    ck.count(f"exhaustive:{len(offsets)}ranges_{threads}workers_{len(fails)}fail:runs", runs)
+    ck.count(f"exhaustive:{len(offsets)}ranges_{threads}workers_{len(fails)}fail:transitions", len(seen))
+    if frontier:
+        ck.count("exhaustive_truncated_at_limit")
 
 
 def run(ck):
@@ -202,6 +245,12 @@ def run(ck):
         meta.append((dict(inp, kind="bound"), ("mu", len(r["schedule"]))))
         if ri < 3:
             ck.sample(inp)
+    # ------------------------------------------------------------------ (a') all schedules of small configurations
+    configs = [([100, 200], [], 2), ([100, 200], [200], 2)] if q else \
+        [([100, 200], [], 2), ([100, 200], [200], 2), ([100], [], 3), ([100, 200, 300], [], 2), ([100, 200, 300], [100], 2),
+         ([100, 200], [], 3), ([100, 200, 300], [], 3)]
+    for offs, fl, th in configs:
+        explore_all(ck, offs, fl, th, lines, meta, 400 if q else 20000)
     # ------------------------------------------------------------------ (b) whole queries over HTTP
     import lazrs  # noqa: F401  (the backend double)
     nq = 12 if q else 150
